@@ -7,8 +7,9 @@
 
   Inputs (all full names): the enums and messages the file declares in flattened order (`f.allEnums`,
   `f.allMessages`; map-entry messages included), for every message the type names of its enum / message / map
-  typed fields in declaration order, and (input, output) of every method. proto3 files handled by this plugin
-  have no extensions: the two extension sections are empty (their offsets are still emitted).
+  typed fields in declaration order, for every extension the file declares (at file level or nested in a message,
+  `f.allExtensions`) its extendee and, when it is enum / message typed, its type name, and (input, output) of
+  every method.
 
   Core-only (the driver answers `deptab` lines with `typeTables`).
 -/
@@ -33,7 +34,7 @@ def TypeTab.dep (t : TypeTab) (name : String) : TypeTab :=
 
 structure Tables where
   goTypes : List String
-  /-- dependency indexes, section by section: field type_name, (extension extendee, extension type_name: empty),
+  /-- dependency indexes, section by section: field type_name, extension extendee, extension type_name,
       method input_type, method output_type -/
   deps : List Nat
   /-- the five section offsets, in the order they are appended: method output_type, method input_type,
@@ -41,20 +42,28 @@ structure Tables where
   offsets : List Nat
   deriving Repr, DecidableEq
 
+/-- extendees of the declared extensions / type names of the enum or message typed ones, in declaration order -/
+def extendees (exts : List (String × Option String)) : List String := exts.map (·.1)
+def extTypes (exts : List (String × Option String)) : List String := exts.filterMap (·.2)
+
 /-- `genReflectFileDescriptor`'s tables. -/
-def typeTables (enums msgs : List String) (fieldDeps : List (List String)) (methods : List (String × String)) : Tables :=
+def typeTables (enums msgs : List String) (fieldDeps : List (List String)) (exts : List (String × Option String))
+    (methods : List (String × String)) : Tables :=
   let t0 := (enums ++ msgs).foldl TypeTab.decl {}
   let t1 := fieldDeps.flatten.foldl TypeTab.dep t0
-  let t2 := (methods.map (·.1)).foldl TypeTab.dep t1
+  let t1a := (extendees exts).foldl TypeTab.dep t1
+  let t1b := (extTypes exts).foldl TypeTab.dep t1a
+  let t2 := (methods.map (·.1)).foldl TypeTab.dep t1b
   let t3 := (methods.map (·.2)).foldl TypeTab.dep t2
   { goTypes := t3.goTypes, deps := t3.deps,
-    offsets := [t2.deps.length, t1.deps.length, t1.deps.length, t1.deps.length, 0] }
+    offsets := [t2.deps.length, t1b.deps.length, t1a.deps.length, t1.deps.length, 0] }
 
 /-- the emitted `depIdxs` slice -/
 def Tables.depIdxs (t : Tables) : List Nat := t.deps ++ t.offsets
 
 /-- the dependencies in the order protobuf-go consumes them -/
-def allDeps (fieldDeps : List (List String)) (methods : List (String × String)) : List String :=
-  fieldDeps.flatten ++ methods.map (·.1) ++ methods.map (·.2)
+def allDeps (fieldDeps : List (List String)) (exts : List (String × Option String)) (methods : List (String × String)) :
+    List String :=
+  fieldDeps.flatten ++ extendees exts ++ extTypes exts ++ methods.map (·.1) ++ methods.map (·.2)
 
 end Pulsar.Gen
